@@ -55,6 +55,19 @@ Theorem C39_stale_unschedule_ignored : forall s b j a i t rs x,
 Proof. exact stale_unschedule_ignored. Qed.
 Print Assumptions C39_stale_unschedule_ignored.
 
+(** Late START messages cannot move a job either: creating / started reports act on Ready jobs only, a schedule on
+    Ready or Creating jobs only; in any other state no job row changes. *)
+Theorem C39_start_messages_only_move_waiting_jobs : forall s o b j x,
+  find_job s b j = Some x ->
+  match o with
+  | ScheduleJob b' j' _ _ => (b', j') = (b, j) /\ j_state x <> Ready /\ j_state x <> Creating
+  | MarkCreating b' j' _ _ _ | MarkStarted b' j' _ _ _ => (b', j') = (b, j) /\ j_state x <> Ready
+  | _ => False
+  end ->
+  jobs (fst (step s o)) = jobs s.
+Proof. exact start_messages_only_move_waiting_jobs. Qed.
+Print Assumptions C39_start_messages_only_move_waiting_jobs.
+
 (** Terminal rows are kept by every transaction except the commit of an update and the completion of ANOTHER job: no
     message about the job itself, however late or duplicated, and no deactivation moves a finished job. *)
 Theorem C39_terminal_row_kept : forall s o b j x,
